@@ -17,6 +17,7 @@ pub enum Real {
     GT(Gt),
     V(String),
     N(u128),
+    I(i128),
     X(Vec<u8>),
     L(usize),
 }
@@ -31,6 +32,7 @@ impl Real {
             Real::GT(_) => "gt:..".to_string(),
             Real::V(v) => format!("v:{}", v),
             Real::N(n) => format!("n:{}", n),
+            Real::I(n) => format!("i:{}", n),
             Real::X(x) => format!("x:{}", hex::encode(x)),
             Real::L(n) => format!("l:{}", n),
         }
@@ -140,6 +142,7 @@ impl Ctx {
                     (Tok::S(d), Real::GT(g)) => dl::bt() * *d == *g,
                     (Tok::V(a), Real::V(b)) => a == b,
                     (Tok::N(a), Real::N(b)) => a == b,
+                    (Tok::I(a), Real::I(b)) => a == b,
                     (Tok::X(a), Real::X(b)) => a == b,
                     (Tok::L(a), Real::L(b)) => a == b,
                     _ => false,
